@@ -797,3 +797,107 @@ func ruleAtomCanonical(c *Ctx, r *Report) {
 	}
 	r.analysed(rule, fname(fn))
 }
+
+// ---------------------------------------------------------------------------
+// R-ATOMIC-RMW (C14; added after seed C14d): a package-level counter shared by all interpreters is advanced
+// with one atomic read-modify-write (atomic.Add*, CompareAndSwap). A value computed from atomic.Load of the
+// variable and written back with atomic.Store is two atomic operations, not one: whatever another
+// interpreter added in between is lost and the counter can go backwards - "fresh" variables that somebody
+// already owns. (The race detector is silent: every access is atomic.)
+
+func ruleAtomicRMW(c *Ctx, r *Report) {
+	const rule = "R-ATOMIC-RMW"
+	desc := "a shared counter is never written back from a value computed from an earlier load of it"
+	globalOf := func(addr ssa.Value) *ssa.Global {
+		for _, l := range c.originSet(addr) {
+			if g, ok := l.(*ssa.Global); ok {
+				return g
+			}
+		}
+		if g, ok := addr.(*ssa.Global); ok {
+			return g
+		}
+		return nil
+	}
+	isAtomic := func(call *ssa.Call, prefix string) bool {
+		f := call.Call.StaticCallee()
+		return f != nil && f.Pkg != nil && f.Pkg.Pkg.Path() == "sync/atomic" && strings.HasPrefix(f.Name(), prefix)
+	}
+	nadd, nstore := 0, 0
+	for _, fn := range c.LibFuncs() {
+		seen := 0
+		eachInstr(fn, func(in ssa.Instruction) {
+			call, ok := in.(*ssa.Call)
+			if !ok || len(call.Call.Args) < 1 {
+				return
+			}
+			if isAtomic(call, "Add") || isAtomic(call, "CompareAndSwap") {
+				if g := globalOf(call.Call.Args[0]); g != nil && c.isLibPkg(g.Pkg) {
+					nadd++
+					r.ok(rule, fmt.Sprintf("%s/%s(%s)", fname(fn), call.Call.StaticCallee().Name(), g.Name()), c.at(in), desc, "one atomic read-modify-write", false)
+				}
+				return
+			}
+			if !isAtomic(call, "Store") || len(call.Call.Args) < 2 {
+				return
+			}
+			g := globalOf(call.Call.Args[0])
+			if g == nil || !c.isLibPkg(g.Pkg) {
+				return
+			}
+			nstore++
+			seen++
+			fromLoad := false
+			// data dependence, following local cells too
+			seenV := map[ssa.Value]bool{}
+			var walk func(v ssa.Value, d int)
+			walk = func(v ssa.Value, d int) {
+				if v == nil || seenV[v] || d > 20 {
+					return
+				}
+				seenV[v] = true
+				switch x := v.(type) {
+				case *ssa.Call:
+					if isAtomic(x, "Load") && len(x.Call.Args) > 0 && globalOf(x.Call.Args[0]) == g {
+						fromLoad = true
+						return
+					}
+					for _, a := range x.Call.Args {
+						walk(a, d+1)
+					}
+				case *ssa.Phi:
+					for _, e := range x.Edges {
+						walk(e, d+1)
+					}
+				case *ssa.BinOp:
+					walk(x.X, d+1)
+					walk(x.Y, d+1)
+				case *ssa.UnOp:
+					walk(x.X, d+1)
+					if cell := c.varCell(x.X); cell != nil {
+						for _, st := range c.storesTo(cell) {
+							walk(st.Val, d+1)
+						}
+					}
+				case *ssa.Convert:
+					walk(x.X, d+1)
+				case *ssa.ChangeType:
+					walk(x.X, d+1)
+				case *ssa.Extract:
+					walk(x.Tuple, d+1)
+				}
+			}
+			walk(call.Call.Args[1], 0)
+			key := fmt.Sprintf("%s/Store(%s)#%d", fname(fn), g.Name(), seen)
+			if fromLoad {
+				r.bad(rule, fmt.Sprintf("%s/Store(%s)", fname(fn), g.Name()), c.at(in), desc, "the stored value is computed from atomic.Load of "+g.Name()+": a load-then-store is not atomic - additions made by other interpreters in between are lost and the counter can go backwards")
+			} else {
+				r.ok(rule, key, c.at(in), desc, "the stored value does not depend on a load of the same variable", true)
+			}
+		})
+	}
+	if nadd+nstore == 0 {
+		r.bad(rule, "scan/atomics", "-", desc, "no atomic update of a package-level variable found: the shared counters are not being seen")
+	}
+	r.analysed(rule, fmt.Sprintf("%d atomic read-modify-writes, %d atomic stores on package-level variables", nadd, nstore))
+}
